@@ -128,7 +128,7 @@ public:
 
     ///initializes object if needed, otherwise does nothing
     void init_if_needed() {
-        if (_ptr) _ptr = std::make_shared<future_internal>();
+        if (!_ptr) _ptr = std::make_shared<future_internal>();
     }
 
     ///retrieves promise from unitialized shared_future.
